@@ -208,3 +208,59 @@ func VH_CONC2() {
 	db.Close()
 	vf.Cover("CONC2.end")
 }
+
+// VH_CONC3: two blind writers on different keys whose transactions were begun up front
+// (so neither waits for the other's commit in Begin) commit concurrently while every commit
+// rotates the memtable; a reader follows.  No panic, no race, both commits succeed and both
+// values are visible afterwards (C12); nothing hangs (C15).
+func VH_CONC3() {
+	logger.SetLogger(vlog{})
+	cfg := Config{SkipListMaxLevel: 2, SkipListP: 0.5, MemtableByteThreshold: vf.Param("MEMTHR", 20),
+		ImmutableBuffer: vf.Choose("ib", 0, vf.Param("IBMAX", 1)), DataBlockByteThreshold: 1, L0TargetNum: 1, LevelRatio: 1}
+	dir := vf.Dir()
+	db, err := Open(dir, cfg)
+	vf.Assert("CONC3.open", err == nil)
+	keys := []string{"a", "b"}
+	vals := [][]byte{{vf.Byte("va")}, {vf.Byte("vb")}}
+	txns := []*Txn{db.Begin(true), db.Begin(true)}
+	errs := make([]error, 2)
+	done := make(chan int, 2)
+	for g := 0; g < 2; g++ {
+		g := g
+		go func() {
+			_ = txns[g].Set(keys[g], vals[g])
+			errs[g] = txns[g].Commit()
+			done <- g
+		}()
+	}
+	<-done
+	<-done
+	vf.Assert("C12.conc3.commit-ok", errs[0] == nil && errs[1] == nil)
+	_ = db.View(func(txn *Txn) error {
+		for g := 0; g < 2; g++ {
+			got, ok := txn.Get(keys[g])
+			vf.Assert("C12.conc3.visible", vf.And(ok, vf.BytesEq(got, vals[g])))
+		}
+		return nil
+	})
+	vDrain(db)
+	db.Close()
+	stopped := false
+	select {
+	case <-db.closed:
+		stopped = true
+	default:
+	}
+	vf.Assert("C15.conc3.flusher-stopped", stopped)
+	db2, err := Open(dir, cfg)
+	vf.Assert("C15.conc3.reopen", err == nil)
+	_ = db2.View(func(txn *Txn) error {
+		for g := 0; g < 2; g++ {
+			got, ok := txn.Get(keys[g])
+			vf.Assert("C15.conc3.reopened", vf.And(ok, vf.BytesEq(got, vals[g])))
+		}
+		return nil
+	})
+	db2.Close()
+	vf.Cover("CONC3.end")
+}
